@@ -9,6 +9,9 @@ Export ListNotations.
 Open Scope string_scope.
 Open Scope Z_scope.
 
+(* closes a goal `x = y` (y a value) by one VM conversion, performed when the proof term is checked *)
+Ltac by_vm := match goal with |- _ = ?y => vm_cast_no_check (eq_refl y) end.
+
 (* ------------------------------------------------------------------------------------------ *)
 (** * 1. Error classes and mpi2nc *)
 
@@ -48,13 +51,13 @@ Lemma mpi2nc_table_classes_known :
   forall k v, In (k, v) mpi2nc_table -> exists c, class_name c = k.
 Proof.
   assert (H : forallb (fun kv => existsb (fun c => String.eqb (class_name c) (fst kv)) all_classes)
-                      mpi2nc_table = true) by (vm_compute; reflexivity).
+                      mpi2nc_table = true) by by_vm.
   intros k v Hin. rewrite forallb_forall in H. specialize (H _ Hin). cbn [fst] in H.
   apply existsb_exists in H. destruct H as [c [_ Hc]]. exists c. apply String.eqb_eq. exact Hc.
 Qed.
 
 Lemma mpi2nc_default_is_EFILE : mpi2nc_default = NC_EFILE.
-Proof. vm_compute. reflexivity. Qed.
+Proof. by_vm. Qed.
 
 (* the assumption "status codes are never positive": every NC constant that occurs in the generated
    continuations is <= 0, and NC_NOERR is the only zero *)
@@ -62,7 +65,7 @@ Lemma nc_codes_negative :
   forall z n, In (z, n) nc_codes -> z < 0 \/ (z = 0 /\ n = "NC_NOERR").
 Proof.
   assert (H : forallb (fun zn => Z.ltb (fst zn) 0 || (Z.eqb (fst zn) 0 && String.eqb (snd zn) "NC_NOERR"))
-                      nc_codes = true) by (vm_compute; reflexivity).
+                      nc_codes = true) by by_vm.
   intros z n Hin. rewrite forallb_forall in H. specialize (H _ Hin). cbn [fst snd] in H.
   apply orb_true_iff in H. destruct H as [H | H].
   - left. apply Z.ltb_lt. exact H.
@@ -72,7 +75,7 @@ Qed.
 
 (* the translator's own completeness checks (textual census of the calls against the AST walk) *)
 Lemma translator_census_complete : translator_problems = [].
-Proof. vm_compute. reflexivity. Qed.
+Proof. by_vm. Qed.
 
 (* ------------------------------------------------------------------------------------------ *)
 (** * 2. Equality tests are exact *)
@@ -286,7 +289,7 @@ Lemma links_propagate_except_bad :
   forall l, In l link_sites -> ~ In (s_id l) bad_link_ids -> link_returns_error l.
 Proof.
   assert (H : forallb (fun l => str_mem (s_id l) bad_link_ids || link_propagates l) link_sites = true)
-    by (vm_compute; reflexivity).
+    by by_vm.
   intros l Hin Hnb. rewrite forallb_forall in H. specialize (H _ Hin).
   apply orb_true_iff in H. destruct H as [H | H].
   - exfalso. apply Hnb. apply str_mem_In. exact H.
@@ -298,7 +301,7 @@ Lemma bad_links_drop :
   forall id, In id bad_link_ids -> ~ link_returns_error (site_of id link_sites).
 Proof.
   assert (H : forallb (fun id => negb (link_propagates (site_of id link_sites))) bad_link_ids = true)
-    by (vm_compute; reflexivity).
+    by by_vm.
   intros id Hin Hr. rewrite forallb_forall in H. specialize (H _ Hin).
   apply link_propagates_spec in Hr. rewrite Hr in H. discriminate.
 Qed.
@@ -490,13 +493,13 @@ Example on_path_inhabited :
   on_path link_sites "write_NC" (site_of "ncmpio_enddef.c:ncmpio__enddef:write_NC" link_sites) /\
   on_path link_sites "write_NC" (site_of "file.c:ncmpi_enddef:ncmpio_enddef" link_sites).
 Proof.
-  split; split; try (apply site_of_In; vm_compute; reflexivity).
+  split; split; try (apply site_of_In; by_vm).
   - apply cu_refl.
   - eapply (path_from_sound link_sites
               (sites_of ["ncmpio_enddef.c:ncmpio__enddef:write_NC"; "ncmpio_enddef.c:ncmpio_enddef:ncmpio__enddef"] link_sites)
               "write_NC").
-    + apply sites_of_In; vm_compute; reflexivity.
-    + vm_compute; reflexivity.
+    + apply sites_of_In; by_vm.
+    + by_vm.
     + apply cu_refl.
 Qed.
 
